@@ -958,6 +958,12 @@ class Interp(StmtMixin, ExtMixin, OpsMixin, InterpCore):
                 hi = mid
         return Num(ep.const(lo))
 
+    def x_re_escape(self, args, kwargs, node, env):
+        if kwargs or len(args) != 1 or not (isinstance(args[0], Const) and isinstance(args[0].v, str)):
+            self.err(node, "re.escape of a non-constant string")
+        import re
+        return Const(re.escape(args[0].v))
+
     def x_re_compile(self, args, kwargs, node, env):
         if not (isinstance(args[0], Const) and isinstance(args[0].v, str)):
             self.err(node, "re.compile of a non-constant pattern")
@@ -1030,6 +1036,14 @@ class RegexModel(object):
 
     def m_match(self, I, args, kwargs):
         m = self.rx.match(self._s(args[0]))
+        return NONE if m is None else PyObjV(MatchModel(m))
+
+    def m_fullmatch(self, I, args, kwargs):
+        m = self.rx.fullmatch(self._s(args[0]))
+        return NONE if m is None else PyObjV(MatchModel(m))
+
+    def m_search(self, I, args, kwargs):
+        m = self.rx.search(self._s(args[0]))
         return NONE if m is None else PyObjV(MatchModel(m))
 
 
